@@ -415,6 +415,7 @@ Qed.
 Theorem li_process_slots E f st t f' st' : process_slots E f st t = Some (f', st') -> lengths_inv f st -> lengths_inv f' st'.
 Proof.
   intros H Hi. unfold process_slots in H. destruct (slot st <? t); [|discriminate H].
+  destruct (_ <=? _); [|discriminate H].
   eapply li_slots_loop; eassumption.
 Qed.
 (* one whole state transition *)
